@@ -54,3 +54,23 @@ def gs_next(idx, probs, d2, gabriel, shell):
 def centres(X, root):
     idx = np.concatenate(np.argwhere(root == np.arange(root.shape[0])))
     return idx, X[idx]
+
+
+def ascent_labels(n, step):
+    # every unlabelled point follows the ascent map until it reaches a fixed point or
+    # an already labelled point; the whole path receives that point's ROOT
+    root = np.full(n, -1, dtype=int)
+    for i in range(n):
+        if root[i] != -1:
+            continue
+        path = []
+        path.append(i)
+        current = path[-1]
+        while current != root[current]:
+            root[current] = step(current)
+            if root[root[current]] != -1:
+                break
+            path.append(root[current])
+            current = path[-1]
+        root[path] = root[root[current]]
+    return root
